@@ -23,6 +23,25 @@ def discharge(ex, ob, timeout_ms):
         ob.extra['by'] = 'simplifier'
         return
     g = ob.goal
+    if ob.kind == 'field-recomputed' and not z3.is_false(g):
+        # algebra obligation: the definitions of inner products, products,
+        # quotients and square roots (kept out of the path conditions) are
+        # added as hypotheses; nonlinear real arithmetic (z3 nlsat)
+        from engine import smt
+        fl = list(getattr(ex, 'alg_facts', []))
+        allc = list(ex.axioms) + list(ob.pc) + fl
+        neg = z3.Not(g)
+        idx = smt.relevant(allc, smt.symbols(neg))
+        s2 = z3.Solver()
+        s2.set('timeout', max(timeout_ms, 60000))
+        for i in sorted(idx):
+            s2.add(allc[i])
+        s2.add(neg)
+        r = s2.check()
+        ob.status = 'proved' if r == z3.unsat else (
+            'refuted' if r == z3.sat else 'undecided')
+        ob.extra['by'] = 'z3 (NRA)'
+        return
     if z3.is_false(g):
         # reachability of the path decides
         r = ex.check(ob.pc, [], timeout=timeout_ms)
